@@ -10,7 +10,7 @@ mkdir -p "$BD"
 if [ -f "$TREE/_build/version.h" ]; then cp "$TREE/_build/version.h" "$BD/version.h"; else
 sed -e 's/@My_Project_Title_Caps@/LIBMULTIMARKDOWN/g' -e 's/@My_Project_Version@/6.7.0/g' -e 's/@[A-Za-z_]*@/x/g' "$TREE/templates/version.h.in" > "$BD/version.h"; fi
 SRCS=$(ls "$TREE"/src/*.c | grep -v char_lookup.c)
-( cd "$BD" && printf '%s\n' $SRCS | xargs -P 16 -I{} sh -c 'cc -O1 -DNDEBUG -w -I"$0" -I"$1/src" -c {} -o "$0/$(basename {} .c).o"' "$BD" "$TREE" ) || { echo "BUILD FAILED"; exit 2; }
+( cd "$BD" && printf '%s\n' $SRCS | xargs -P 16 -I{} sh -c 'cc -O1 -DNDEBUG -w -Wno-cpp -I"$0" -I"$1/src" -c {} -o "$0/$(basename {} .c).o"' "$BD" "$TREE" ) 2>/dev/null || { echo "BUILD FAILED"; exit 2; }
 cc -o "$BD/multimarkdown" "$BD"/*.o -lm -lpthread 2>"$BD/link.log" || cc -o "$BD/multimarkdown" "$BD"/*.o -lm -lpthread -lcurl 2>>"$BD/link.log" || { cat "$BD/link.log"; echo "LINK FAILED"; exit 2; }
 pass=0; fail=0
 run() { # name flags folder ext
